@@ -173,6 +173,9 @@ def _work(args):
                         rec["variants"].append(variant("bubble_sq", proj(td.bubble(func=lambda v: v * v).eval())))
                     rec["variants"].append(variant("bubble_1m", proj(td.bubble(func=lambda v: 1 - v).eval())))
                     rec["variants"].append(variant("bubble_i", proj(tdi.bubble(func=lambda v: v * 1j).eval())))
+                    if biggest < 20000 and size(dabs["dom"]) * size(dabs["cod"]) <= 16:
+                        pair = td.bubble(func=lambda v: 1 - v) @ td.bubble(func=lambda v: v * 1j)
+                        rec["variants"].append(variant("bubble_pair", proj(pair.eval())))
                     # formal sums: with a parallel diagram from the model (the previous one of the same type)
                     key = (json.dumps(dabs["dom"]), json.dumps(dabs["cod"]))
                     prev = seen_parallel.get(key)
